@@ -11,7 +11,10 @@ N_CASES = {"quick": 40, "thorough": 700}
 TOK = re.compile(r"[A-Za-z0-9_]+|\s+|<<|>>|.", re.S)
 COMMENTS = ["/* c */", "/**/", "/* ; */", "/* { } */", "/* struct union enum typedef */", "/* it's \"quoted\" */",
             "/* multi\n line\n */", "/* // nested line marker */", "/* #define X 1 */", "/* a[3] */", "/*\t*/",
-            "/* * / * */"]
+            "/* * / * */",
+            # runs of asterisks at either end (documentation and banner styles), slashes and stars inside
+            "/** doc **/", "/***/", "/****/", "/*** x ***/", "/******************/", "/*******************/", "/** a\n ** b\n **/",
+            "/* a/b */", "/*/ */", "/* **/", "/*\\*/"]
 LINE_COMMENTS = ["// c", "// ; }", "// struct x {", "//", "// /* not a block", "// it's"]
 SPACES = [" ", "  ", "\t", "\n", "\r\n", " \n ", "\n\n"]
 
@@ -212,6 +215,45 @@ def check_case(ctx, case, rng):
         ins = rng.choice([" ", "\t", "\n", " /* c */ ", "/**/ ", " "])
         ctx.cell("boundary:" + bk)
         compare(text[:pos] + ins + text[pos:], "insertion:per-boundary", [(bk, ins)])
+    # a comment *instead of* the whitespace between two tokens (in C a comment is a separator like a blank): every
+    # whitespace run outside #define lines that sits at a token boundary is a candidate
+    ws = [(m.start(), m.end()) for m in re.finditer(r"[ \t]+", text)
+          if any(p == m.end() and k.startswith("ws:") for p, k in boundaries(text))]
+    for _ in range(2 if not ctx.thorough else 5):
+        if not ws:
+            break
+        picks = sorted(rng.sample(ws, min(len(ws), rng.randint(1, 5))), reverse=True)
+        variant = text
+        for a, b in picks:
+            variant = variant[:a] + rng.choice(["/**/", "/* c */", "/*\n*/", "/*;*/", "/* // */"]) + variant[b:]
+        ctx.cell("comment-replaces-whitespace")
+        compare(variant, "replacement:comment-for-whitespace", [text[a - 3:b + 3] for a, b in picks])
+    # a #define without a value (an empty macro) between the declarations defines nothing but itself
+    lines = text.split("\n")
+    k = rng.randrange(len(lines) + 1)
+    while 0 < k < len(lines) and (lines[k - 1].count("{") != lines[k - 1].count("}") or not lines[k - 1].rstrip().endswith(";")
+                                  and lines[k - 1].strip()):
+        k -= 1
+    if k == 0 or lines[k - 1].strip() == "" or lines[k - 1].rstrip().endswith(";") or lines[k - 1].startswith("#define"):
+        depth = sum(ln.count("{") - ln.count("}") for ln in lines[:k])
+        if depth == 0:
+            empty = rng.choice(["#define VF_EMPTY", "#define VF_EMPTY  ", "#define VF_EMPTY\t"])
+            variant = "\n".join(lines[:k] + [empty] + lines[k:])
+            ctx.cell("define-without-value")
+            ctx.evaluation((text, "empty-define", k))
+            try:
+                cs2 = lib.cstruct(endian=cfgd["endian"])
+                cs2.load(variant, compiled=cfgd["compiled"], align=cfgd["align"])
+                consts2 = {k_: repr(v) for k_, v in cs2.consts.items() if k_ != "VF_EMPTY"}
+                if table_sig(cs2, names) != ref_sig or consts2 != ref_consts or cs2.consts.get("VF_EMPTY") != "" or \
+                        behaviour(cs2, case, inputs) != ref_beh:
+                    ctx.violation("define", "define-without-a-value-changes-the-definitions-around-it",
+                                  {"text": text, "variant": variant, "cfg": cfgd, "empty": repr(cs2.consts.get("VF_EMPTY"))})
+                else:
+                    ctx.event("equivalent:empty-define")
+            except Exception as e:  # noqa: BLE001
+                ctx.violation("define", f"define-without-a-value-rejected:{type(e).__name__}",
+                              {"text": text, "variant": variant, "cfg": cfgd, "error": lib.exc_sig(e)})
     ro = reorder(case, rng)
     if ro is not None:
         parts, order = ro
@@ -276,6 +318,40 @@ def aliases(ctx, rng):
                 ctx.event("conflicting_redeclaration_rejected")
         except Exception as e:  # noqa: BLE001
             ctx.violation("alias", f"alias-workload-raises:{type(e).__name__}", {"text": text, "error": lib.exc_sig(e)})
+    # aliases of array and pointer types: the same declaration again is the same target, any other one is not
+    same = ["typedef uint8 R[2];", "typedef uint16 *R;", "typedef uint8 R[];", "typedef uint8 R[2][3];", "typedef uleb128 R[2];",
+            "typedef S0 R[2];", "typedef S0 *R;", "typedef uint8 R[EOF];", "typedef uint8 **R;", "typedef uint16 *R[2];"]
+    other = {"typedef uint8 R[2];": ["typedef uint8 R[3];", "typedef int8 R[2];", "typedef uint8 R[];", "typedef uint8 *R;", "typedef uint8 R;"],
+             "typedef uint16 *R;": ["typedef uint8 *R;", "typedef uint16 **R;", "typedef uint16 R;", "typedef uint16 R[1];"],
+             "typedef uint8 R[];": ["typedef uint8 R[EOF];", "typedef uint8 R[1];", "typedef uint16 R[];"],
+             "typedef uint8 R[2][3];": ["typedef uint8 R[3][2];", "typedef uint8 R[6];"],
+             "typedef uleb128 R[2];": ["typedef uleb128 R[3];", "typedef ileb128 R[2];", "typedef uleb128 R[];"],
+             "typedef S0 R[2];": ["typedef S1 R[2];", "typedef S0 R[1];"], "typedef S0 *R;": ["typedef S1 *R;"],
+             "typedef uint8 R[EOF];": ["typedef uint8 R[];", "typedef uint8 R[2];"], "typedef uint8 **R;": ["typedef uint8 *R;"],
+             "typedef uint16 *R[2];": ["typedef uint16 *R[3];", "typedef uint16 R[2];"]}
+    pre = "struct S0 { uint8 a; };\nstruct S1 { uint8 a; };\n"
+    for first in same:
+        for second in [first] + other[first]:
+            ctx.evaluation(("array-pointer-alias", first, second))
+            ctx.cell("alias-of-array-or-pointer-redeclared")
+            try:
+                cs = lib.load(pre + first)
+                before = cs.resolve("R")
+                try:
+                    cs.load(second)
+                    accepted = True
+                except ValueError:
+                    accepted = False
+                if accepted != (second == first):
+                    ctx.violation("alias", "redeclaration-of-array-or-pointer-alias-" + ("accepted-for-another-target" if accepted
+                                  else "refused-for-the-same-target"), {"first": first, "second": second})
+                elif not accepted and cs.resolve("R") is not before:
+                    ctx.violation("alias", "refused-redeclaration-rebinds-the-alias", {"first": first, "second": second})
+                else:
+                    ctx.event("array_pointer_redeclarations_checked")
+            except Exception as e:  # noqa: BLE001
+                ctx.violation("alias", f"alias-workload-raises:{type(e).__name__}", {"first": first, "second": second,
+                                                                                     "error": lib.exc_sig(e)})
     # by-name alias chains follow a replaced target: nothing resolved earlier may be remembered
     for i, (first, second) in enumerate((("uint64", "uint32"), ("uint16", "int24"), ("char", "uint8"))):
         ctx.evaluation(("replace", first, second))
